@@ -27,6 +27,7 @@ EXPLANATION = (
     " Round-4 triage: (12) the erase-to-end-of-line shortcut is disabled for every style flag _attrspec_to_escape() emits that is drawn on blank cells (all but bold / italics / blink). Round 5: (13) every value given to the rendition model of draw_screen is sent on every path to its next use; (14) _last_row reads row[-2] only under a test of len(row); (15) every draw_screen reads all three components of a run (the HTML back-end used to drop the charset flag); (3, extended) `_resized` is tested again between the write loop and the screen_buf record."
     ' Round 6: (12) the erase-shortcut helper resolves an AttrSpec object to itself; (16) TAINT: every piece of cell text decoded for output went through the control-character filter - also the cell written with the insert trick (fix 8553a8b); (17) a draw that ends with the IBM PC font on switches it off.'
     ' Round 7: (18) the erase shortcut strips exactly the byte its enabling test found at the end of the run; (19) set_encoding() stores the one UTF-8 spelling the display modules compare get_encoding() with (fix 7c379d4).'
+    ' Round 8: (20) GUARD: a blank row is skipped in partial-screen mode only where y - _rows_used > 0 is entailed by the tests on the way (the mark is an index, not a count).'
 )
 NOT_DECIDED = "The effect of the escape stream on a terminal across frame histories, the erase-to-end-of-line and insert-mode equivalences, no-scroll - these need a terminal interpreter, i.e. execution."
 ASSUMPTIONS = []
